@@ -172,6 +172,7 @@ let hist_case (fields : (string * string) list) (obs : string) pf df =
         | "Z" -> HResize (nat_of_int (num 1), nat_of_int (num 2))
         | "C" -> HClone
         | "D" -> HDefault
+        | "F" -> HFill (f32_of_int (int_of_string ("0x" ^ parts.(1))))
         | _ -> failwith "history op" in
       let key k = Printf.sprintf "%s%d" k i in
       let what = Printf.sprintf "history step %d (%s)" i opt in
@@ -232,6 +233,7 @@ let hist_case (fields : (string * string) list) (obs : string) pf df =
                     pf (what ^ ": a value fails the definition")
                   else if oget (key "l") <> string_of_int nvals then pf (what ^ ": len() is not L-M+1")
                   else if (oget (key "e") = "1") <> (l < m) then pf (what ^ ": is_empty() is not (L < M)")
+                  else if ohas (key "v") then pf (what ^ ": " ^ oget (key "v") ^ " does not give the values of unstripe()")
             end
           end
         end
